@@ -16,11 +16,12 @@ def load_catalog():
     for m in d['mutants']:
         m['kind'] = 'mutant'
         cat.append(m)
-    ap = f'{VERIF}/sa/selftest/agent_mutants.json'
-    if os.path.exists(ap):
-        for m in json.load(open(ap))['mutants']:
-            m['kind'] = 'mutant'
-            cat.append(m)
+    for name in ('agent_mutants.json', 'base_mutants.json'):
+        ap = f'{VERIF}/sa/selftest/{name}'
+        if os.path.exists(ap):
+            for m in json.load(open(ap))['mutants']:
+                m['kind'] = 'mutant'
+                cat.append(m)
     d = json.load(open(f'{VERIF}/sa/selftest/benign_variants.json'))
     for m in d['variants']:
         m['kind'] = 'benign'
@@ -29,6 +30,12 @@ def load_catalog():
 
 def overlay_for(entry):
     files = {}
+    if entry.get('overlay_file'):
+        # a whole-file overlay over /repo (changes written against a refactored base)
+        try:
+            return json.load(open(entry['overlay_file'])), None
+        except Exception as ex:
+            return None, f"stale: overlay file: {ex}"
     for e in entry['edits']:
         path = os.path.join(REPO, e['file'])
         src = files.get(path)
